@@ -39,6 +39,8 @@ pub struct Report {
     pub nontrivial: bool,
     pub rejected: bool,
     pub classes: Vec<String>,
+    /// named measurements; the evidence reports the maximum seen per name
+    pub metrics: Vec<(String, f64)>,
 }
 
 impl Report {
@@ -47,6 +49,10 @@ impl Report {
     }
     pub fn class(&mut self, s: impl Into<String>) -> &mut Self {
         self.classes.push(s.into());
+        self
+    }
+    pub fn metric(&mut self, name: &str, v: f64) -> &mut Self {
+        self.metrics.push((name.to_string(), v));
         self
     }
     pub fn class_if(&mut self, cond: bool, s: &str) -> &mut Self {
@@ -60,6 +66,7 @@ impl Report {
             nontrivial: false,
             rejected: true,
             classes: vec![format!("rejected:{}", why)],
+            metrics: vec![],
         }
     }
 }
@@ -212,6 +219,7 @@ struct SubStats {
     overrun_cases: u64,
     distinct_nontrivial: HashSet<u64>,
     classes: BTreeMap<String, u64>,
+    metrics_max: BTreeMap<String, f64>,
     samples: Vec<Value>,
     first_trivial_sample: Option<Value>,
     exhaustive: Option<bool>,
@@ -288,6 +296,12 @@ impl Session {
         }
         for c in &report.classes {
             *s.classes.entry(c.clone()).or_insert(0) += 1;
+        }
+        for (k, v) in &report.metrics {
+            let e = s.metrics_max.entry(k.clone()).or_insert(f64::NEG_INFINITY);
+            if *v > *e {
+                *e = *v;
+            }
         }
         if report.nontrivial {
             let new = s.distinct_nontrivial.insert(hash);
@@ -418,6 +432,12 @@ impl Session {
                                         for c in &rep.classes {
                                             *s.classes.entry(c.clone()).or_insert(0) += 1;
                                         }
+                                        for (k, v) in &rep.metrics {
+                                            let e = s.metrics_max.entry(k.clone()).or_insert(f64::NEG_INFINITY);
+                                            if *v > *e {
+                                                *e = *v;
+                                            }
+                                        }
                                         if rep.nontrivial {
                                             let new = s.distinct_nontrivial.insert(out.hash);
                                             if new && want_case && s.samples.len() < 3 {
@@ -493,6 +513,12 @@ impl Session {
                 s.distinct_nontrivial.extend(o.stats.distinct_nontrivial.iter().copied());
                 for (k, v) in &o.stats.classes {
                     *s.classes.entry(k.clone()).or_insert(0) += v;
+                }
+                for (k, v) in &o.stats.metrics_max {
+                    let e = s.metrics_max.entry(k.clone()).or_insert(f64::NEG_INFINITY);
+                    if *v > *e {
+                        *e = *v;
+                    }
                 }
                 for v in &o.stats.samples {
                     if s.samples.len() < 3 {
@@ -575,6 +601,7 @@ impl Session {
                     "rejected_out_of_domain": s.rejected,
                     "tape_overrun_cases": s.overrun_cases,
                     "classes": s.classes,
+                    "max_of_metrics": s.metrics_max,
                     "exhaustive": s.exhaustive,
                 }),
             );
